@@ -560,8 +560,8 @@ def run(ctx):
     domains = _domains(SortedSet)
     budget = 40 if ctx.quick else 330
     t0 = time.time()
-    n_set = ctx.scale(12000, 1800000)
-    n_map = ctx.scale(9000, 1500000)
+    n_set = ctx.scale(12000, 1200000)
+    n_map = ctx.scale(9000, 1000000)
     sortedset_sequences(ctx, n_set, SortedSet, ModelSet, domains, t0 + budget * 0.55)
     orderedmap_sequences(ctx, n_map, t0 + budget)
     ctx.floor_distinct = 2000
